@@ -91,7 +91,7 @@ mutual
     | .strLit v => ['"'] ++ escapeForString v ++ ['"']
     | .regexpLit _ val flags => ['/'] ++ val ++ ['/'] ++ flags
     | .arrayLit els => ['['] ++ joinStr [',', ' '] (Expr.strs els) ++ "];\n".toList
-    | .hashLit pairs => ['{'] ++ joinStr [',', ' '] (Pair.strs pairs) ++ ['}']
+    | .hashLit pairs => ['{'] ++ joinStr [',', ' '] ((Pair.strs pairs).mergeSort (fun a b => !(Str.lt b a))) ++ ['}']
     | .prefix op r => ['('] ++ op ++ r.str ++ [')']
     | .infix op l r => ['('] ++ l.str ++ [' '] ++ op ++ [' '] ++ r.str ++ [')']
     | .postfix n op => ['('] ++ n ++ op ++ [')']
